@@ -40,8 +40,7 @@ RULE = ("one case = one generated Modelica model (parameters valued/free/depende
         "distinct = distinct (text, options, mode)")
 TRUSTED = ["pickle and CasADi (de)serialisation of Function objects; gcc + ca.external for codegen (exercised, not modelled)",
            "CasADi's depends_on/is_constant: an attribute classified MX_INDEPENDENT has one value for all parameter vectors, NaN included (exercised at the evaluation points)"]
-ASSUMPTIONS = ["main stream: parameters are scalars (a vector parameter without expand_vectors makes load_model raise: open finding C19-F2, separate stream)",
-               "variable names are unique across the metadata categories (load_model's name dictionary); generated and repository models satisfy it, checked per case",
+ASSUMPTIONS = ["variable names are unique across the metadata categories (load_model's name dictionary); generated and repository models satisfy it, checked per case",
                "attributes of variables depend on parameters only (pymoca cannot build the metadata function otherwise — such models fail to compile fresh as well)",
                "numerical agreement is checked at exact evaluation points (+, -, * on dyadic rationals), not symbolically"]
 
@@ -301,7 +300,7 @@ SMALL_ARRAY_CONST = "model M\n  Real x;\n  Real w[2];\nequation\n  der(x) = -x;\
 
 
 def gen_case(rng, mode="cache"):
-    gm = G.gen_model(rng)
+    gm = G.gen_model(rng, want=["vector-parameter"] if rng.random() < 0.15 else None)
     c = {"name": gm["name"], "text": gm["text"], "features": gm["features"], "opts": G.gen_options(rng),
          "mode": mode, "seed": rng.randrange(1000)}
     r = rng.random()
@@ -311,7 +310,7 @@ def gen_case(rng, mode="cache"):
 
 
 def gen_case_vecparam(rng):
-    """Separate stream (finding C19-F2): a vector parameter; with and without expand_vectors."""
+    """A vector parameter, with and without expand_vectors (finding C19-F2, fixed in 8ef49ef)."""
     gm = G.gen_model(rng, want=["vector-parameter"])
     o = G.gen_options(rng)
     o["expand_vectors"] = rng.random() < 0.4
